@@ -175,6 +175,64 @@ def gen_sweep(ctx, rng):
     return out
 
 
+def gen_edgecrop(rng, thorough):
+    """(a) every operation, sources with partial iMCUs on the right and bottom edge, NO trim, crop with x and y
+    origin > 0 reaching the right / bottom edge: the edge-block branches of every do_* routine with non-zero
+    x_crop_blocks / y_crop_blocks (tj3Transform and the jtransform sequence)"""
+    out = []
+    layouts = [("444", 3, STD["444"]), ("422", 3, STD["422"]), ("420", 3, STD["420"]), ("440", 3, STD["440"]),
+               ("411", 3, STD["411"]), ("441", 3, STD["441"]), ("2x2-2x1-1x2", 3, [(2, 2), (2, 1), (1, 2)]), ("gray", 1, STD["gray"])]
+    for name, cs, fac in layouts:
+        iw, ih = 8 * max(f[0] for f in fac), 8 * max(f[1] for f in fac)
+        if len(fac) == 1:
+            iw = ih = 8
+        for op in range(8):
+            for rep in range(3 if thorough else 1):
+                W = rng.range(2, 3) * iw + rng.range(1, iw - 1)
+                H = rng.range(2, 3) * ih + rng.range(1, ih - 1)
+                dw, dh, dmw, dmh = (H, W, ih, iw) if op in TRANSPOSING else (W, H, iw, ih)
+                path = rng.choice([0, 1, 1, 2]) if name in STD else rng.choice([1, 2])
+                cx = rng.range(1, dw // dmw) * dmw
+                cy = rng.range(1, dh // dmh) * dmh
+                if cx >= dw:
+                    cx -= dmw
+                if cy >= dh:
+                    cy -= dmh
+                if path != 0 and rng.chance(1, 2):      # unaligned origins are moved to the grid by transupp.c
+                    cx += rng.range(0, dmw - 1) if cx + dmw - 1 < dw else 0
+                    cy += rng.range(0, dmh - 1) if cy + dmh - 1 < dh else 0
+                to_edge_x, to_edge_y = rng.chance(5, 6), rng.chance(5, 6)
+                cw = (0 if rng.chance(1, 2) else dw - cx) if to_edge_x else rng.range(1, dw - cx)
+                ch = (0 if rng.chance(1, 2) else dh - cy) if to_edge_y else rng.range(1, dh - cy)
+                x = [op, 0, 0, 0, 1, cw, 1 if cw else 0, ch, 1 if ch else 0, cx, 1, cy, 1, rng.below(16)]
+                toks = [W, H, 8, cs, len(fac)] + [v for f in fac for v in f] + [1, rng.below(5), 60, rng.next() % (1 << 40), 1, path, 1] + x
+                out.append(("case " + " ".join(map(str, toks)), "edgecrop", {"identity": False}))
+    return out
+
+
+def gen_tjgrid(rng, thorough):
+    """(b) tj3Transform crops on 4:4:1 / 4:1:1 / 4:2:2 / 4:4:0 sources, every operation class, origins on every
+    multiple of 8 up to 64 in both directions: acceptance must follow the DESTINATION iMCU grid and the result
+    must have the requested size"""
+    out = []
+    for name in ("441", "411", "422", "440"):
+        fac = STD[name]
+        for op in ((3, 4, 5, 7, 0, 6) if thorough else (rng.choice([3, 4]), rng.choice([5, 7]), rng.choice([0, 1, 2, 6]))):
+            W, H = rng.choice([(72, 80), (80, 72), (96, 72), (75, 83)])
+            dw, dh = (H, W) if op in TRANSPOSING else (W, H)
+            origins = [(a, b) for a in range(0, 65, 8) for b in range(0, 65, 8)]
+            if not thorough:
+                origins = [o for o in origins if o[0] % 32 == 0 or o[1] % 32 == 0 or rng.chance(1, 4)]
+            seed = rng.next() % (1 << 40)
+            for cx, cy in origins:
+                cw = 0 if rng.chance(1, 3) else rng.range(1, dw - cx)
+                ch = 0 if rng.chance(1, 3) else rng.range(1, dh - cy)
+                x = [op, 0, 0, 0, 1, cw, 1 if cw else 0, ch, 1 if ch else 0, cx, 1, cy, 1, 0]
+                toks = [W, H, 8, 3, 3] + [v for f in fac for v in f] + [1, 0, 30, seed, 1, 0, 1] + x
+                out.append(("case " + " ".join(map(str, toks)), "tjgrid", {"identity": False}))
+    return out
+
+
 def gen_reslot(rng):
     """multi-scan sources whose quantization-table slots are redefined by DQT segments spliced in
     between the scans; components sharing / not sharing slots"""
@@ -296,8 +354,8 @@ def block_op(b, tr, negc, negr):
     return out
 
 
-def spec_check(src, dst, op, gray_forced):
-    """direct geometric spec for a transform without crop: every destination block is the
+def spec_check(src, dst, op, gray_forced, xco=0, yco=0):
+    """direct geometric spec (crop origin at iMCU (xco, yco) of the transformed image): every destination block is the
     relocated, sign/transposition adjusted source block; blocks of partial iMCUs on a mirrored
     edge stay in place (transposed when the operation transposes).  Returns None or a message."""
     ncd = len(dst["comps"])
@@ -316,24 +374,41 @@ def spec_check(src, dst, op, gray_forced):
         dW0, dH0 = (sh_px, sw_px) if tr else (sw_px, sh_px)      # untrimmed destination size
         cw = (dW0 // (dmh * 8)) * dhs      # mirrorable width / height in destination blocks
         chh = (dH0 // (dmv * 8)) * dvs
+        X, Y = xco * dhs, yco * dvs       # crop origin in blocks of this component
         for y in range(d["hb"]):
             for x in range(d["wb"]):
-                fx = mx and x < cw
-                fy = my and y < chh
-                sx_d = cw - 1 - x if fx else x
-                sy_d = chh - 1 - y if fy else y
+                fx = mx and X + x < cw
+                fy = my and Y + y < chh
+                sx_d = cw - 1 - (X + x) if fx else X + x
+                sy_d = chh - 1 - (Y + y) if fy else Y + y
                 sx, sy = (sy_d, sx_d) if tr else (sx_d, sy_d)
                 if not (0 <= sx < s["wb"] and 0 <= sy < s["hb"]):
                     return "comp %d block (%d,%d): source position (%d,%d) outside the source plane" % (ci, x, y, sx, sy)
                 exp = block_op(blk(s, sx, sy), tr, fx, fy)
                 if exp != blk(d, x, y):
-                    return "comp %d destination block (%d,%d) is not the %s image of source block (%d,%d)" % (
-                        ci, x, y, OPS[op], sx, sy)
+                    return "comp %d destination block (%d,%d)%s is not the %s image of source block (%d,%d)%s" % (
+                        ci, x, y, " of the region cropped at block (%d,%d)" % (X, Y) if (X or Y) else "", OPS[op], sx, sy,
+                        "" if (fx or not mx) and (fy or not my) else " (edge block that stays in place)")
     return None
 
 
+def crop_region(x, dw, dh, imw, imh):
+    """accepted crop request -> (xco, yco, width, height) as the transupp.c documentation prescribes: the
+    region's origin is moved left/up to an iMCU boundary and the extent grows accordingly"""
+    if not x[4]:
+        return 0, 0, dw, dh
+    cw, cwset, ch, chset, cx, cxset, cy, cyset = x[5:13]
+    cx = cx if cxset else 0
+    cy = cy if cyset else 0
+    w = cw if cwset else dw - cx
+    h = ch if chset else dh - cy
+    xoff = dw - w - cx if cxset == 2 else cx
+    yoff = dh - h - cy if cyset == 2 else cy
+    return xoff // imw, yoff // imh, w + xoff % imw, h + yoff % imh
+
+
 def dims_check(src, dst, x):
-    """size, component count and sampling factors of an uncropped result"""
+    """size, component count and sampling factors of the result; returns (message, xco, yco)"""
     op, trim, gray = x[0], x[2], x[3]
     fac = [(c["hs"], c["vs"]) for c in src["comps"]]
     nc1 = len(fac) == 1 or (gray and src["cs"] == 3 and len(fac) == 3)
@@ -343,18 +418,33 @@ def dims_check(src, dst, x):
     dfac = [(b, a) for a, b in fac] if tr else fac
     dw, dh = (src["H"], src["W"]) if tr else (src["W"], src["H"])
     imw, imh = 8 * max(f[0] for f in dfac), 8 * max(f[1] for f in dfac)
-    if trim and op in (1, 4, 5, 6) and dw >= imw:
+    fw, fh = dw, dh
+    xco, yco, dw, dh = crop_region(x, dw, dh, imw, imh)
+    # trim: a mirrored edge of the region that coincides with the last whole iMCU of the image loses its partial iMCU
+    if trim and op in (1, 4, 5, 6) and dw >= imw and xco + dw // imw == fw // imw:
         dw -= dw % imw
-    if trim and op in (2, 4, 6, 7) and dh >= imh:
+    if trim and op in (2, 4, 6, 7) and dh >= imh and yco + dh // imh == fh // imh:
         dh -= dh % imh
     if (dst["W"], dst["H"]) != (dw, dh):
-        return "result is %dx%d, expected %dx%d" % (dst["W"], dst["H"], dw, dh)
+        return "result is %dx%d, expected %dx%d%s" % (dst["W"], dst["H"], dw, dh, " for the requested region" if x[4] else ""), xco, yco
     if [(c["hs"], c["vs"]) for c in dst["comps"]] != dfac:
-        return "sampling factors of the result are not those of the source%s" % (" swapped" if tr else "")
+        return "sampling factors of the result are not those of the source%s" % (" swapped" if tr else ""), xco, yco
     for c, f in zip(dst["comps"], dfac):
         if (c["wb"], c["hb"]) != (-(-dw * f[0] // imw), -(-dh * f[1] // imh)):
-            return "component size in blocks inconsistent with the image size"
-    return None
+            return "component size in blocks inconsistent with the image size", xco, yco
+    return None, xco, yco
+
+
+def dst_imcu(fac, cs, x):
+    op, gray = x[0], x[3]
+    nc1 = len(fac) == 1 or (gray and cs == 3 and len(fac) == 3)
+    mh = 1 if nc1 else max(f[0] for f in fac)
+    mv = 1 if nc1 else max(f[1] for f in fac)
+    return (8 * mv, 8 * mh) if op in TRANSPOSING else (8 * mh, 8 * mv)
+
+
+def is_std_layout(fac, cs):
+    return (cs == 1 and len(fac) == 1) or (cs == 3 and fac in [STD[k] for k in STD if k != "gray"])
 
 
 def imperfect(W, H, fac, cs, x):
@@ -394,6 +484,8 @@ def run(ctx):
                 if l.startswith("case "):
                     cases.append((l.replace("#identity", "").strip(), "corpus", {"identity": l.endswith("#identity")}))
     cases += gen_sweep(ctx, rng)
+    cases += gen_edgecrop(rng, ctx.thorough())
+    cases += gen_tjgrid(rng, ctx.thorough())
     for i in range(ctx.n(4000, 40000)):
         cases.append(gen_case(rng, i))
         if i % 5 == 0:
@@ -526,10 +618,19 @@ def run_batch(ctx, cases, exes, drv, flavours, tot, base):
                         bad.append(("qtable", "component %d: the table of the output (slot %d) is not the table the source used for this "
                                     "component%s%s" % (ci, dc["tq"], " transposed" if op in TRANSPOSING else "",
                                                        "; its slot was redefined between the source's scans" if ci in reused else "")))
-                if not x[4]:      # no crop: direct geometric spec (trim only removes blocks)
-                    m = dims_check(src, o, x) or spec_check(src, o, op, x[3])
-                    if m:
-                        bad.append(("blocks", m))
+                m, xco, yco = dims_check(src, o, x)
+                m = m or spec_check(src, o, op, x[3], xco, yco)
+                if m:
+                    bad.append(("blocks", m))
+            # tj3Transform: a crop origin is acceptable iff it lies on the iMCU grid of the DESTINATION image
+            if path == 0 and is_std_layout(fac, src["cs"]):
+                mis = [x for x in xfs if x[4] and (x[9] % dst_imcu(fac, src["cs"], x)[0] or x[11] % dst_imcu(fac, src["cs"], x)[1])]
+                if res == "err Align" and not mis:
+                    bad.append(("align-refused", "crop refused as misaligned although its origin is on the %dx%d iMCU grid of the destination"
+                                % dst_imcu(fac, src["cs"], [x for x in xfs if x[4]][0])))
+                if res.startswith("ok") and mis:
+                    bad.append(("align-accepted", "crop with origin (%d,%d) off the %dx%d iMCU grid of the destination was accepted"
+                                % ((mis[0][9], mis[0][11]) + dst_imcu(fac, src["cs"], mis[0]))))
             last_out = outs_i[0] if outs_i else None
             if not res.startswith("ok"):
                 complete = False
